@@ -28,3 +28,7 @@ Definition run_state_file (src : str) : str * str := run_parse_state repo_uclass
 Definition run_state_expr (src : str) : str * str := run_parse_state repo_uclass EExpr src.
 Definition run_state_stmt (src : str) : str * str := run_parse_state repo_uclass EStmt src.
 Definition run_state_stmts (n : nat) (src : str) : str * str := run_parse_state repo_uclass (EStmts n) src.
+
+Definition run_site_file (src : str) : str := run_site repo_uclass EFile src.
+Definition run_site_expr (src : str) : str := run_site repo_uclass EExpr src.
+Definition run_site_stmt (src : str) : str := run_site repo_uclass EStmt src.
